@@ -78,8 +78,8 @@ def insertItem : List Stmt :=
 def bulkItem : List Stmt :=
   [cloneColl "namespace" (ns "clone" param), cloneColl "oplog" (ns "clone" oplog),
    ite (test "op.Opcode == Insert") [hInsertBulk] [
-   ite (test "op.Opcode == Replace") [hReplace "ops"] [
-   ite (test "op.Opcode == Update") [hUpdate] [
+   ite (test "op.Opcode == Replace") [hReplace "ops" "ops"] [
+   ite (test "op.Opcode == Update") [hUpdate "ops" "ops"] [
    ite (test "op.Opcode == Delete") [hDelete] [
    fail]]]]]
 
@@ -168,7 +168,7 @@ def pUpdate_noClone : Prog :=
     ite (isNil (ns "clone" param))
       [newColl "namespace", setNs "clone" param "namespace"]
       [alias "namespace" (ns "clone" param), setNs "clone" param "namespace"]] ++ cloneOplog ++ [
-    hUpdate, ifErrReturn,
+    hUpdate "update" "query", ifErrReturn,
     ite (either (test "len(res.Modified) > 0") (test "res.Upserted != nil")) publish [],
     retOk]
 
@@ -186,7 +186,7 @@ def pUpdate_shallow : Prog :=
     ite (isNil (ns "clone" param))
       [newColl "namespace", setNs "clone" param "namespace"]
       [shallowColl "namespace" (ns "clone" param), setNs "clone" param "namespace"]] ++ cloneOplog ++ [
-    hUpdate, ifErrReturn,
+    hUpdate "update" "query", ifErrReturn,
     ite (either (test "len(res.Modified) > 0") (test "res.Upserted != nil")) publish [],
     retOk]
 
@@ -203,7 +203,7 @@ def pReplace_assignFirst : Prog :=
     cloneDocs "repl" "repl",
     cloneCatalog "clone" "t.catalog",
     createOrClone] ++ cloneOplog ++ [
-    hReplace "repl"] ++ publish ++ [ifErrReturn, retOk]
+    hReplace "repl" "query"] ++ publish ++ [ifErrReturn, retOk]
 
 theorem neg_assign_before_check :
     ownedOK pReplace_assignFirst = false ∧
